@@ -6,12 +6,17 @@ NOT_APPLICABLE = {
 }
 
 # properties not claimed yet (build in progress); removed from here as their checks land
-NOT_YET = {p: "not claimed yet: contracts for the functions it depends on are still being built (see DESIGN 12)" for p in
-           ["C01", "C02", "C09", "C10", "C11", "C12", "C15", "C17"]}
+NOT_YET = {}
 
 TECH = "contract-based deductive verification of the real functions (own VC generator over the Python AST, z3/cvc5 out of process); bounded run-time enumeration as labelled stand-in for engine assumptions"
 def _t(text, note, level="proof"):
     return {"level": level, "technique": TECH, "text": text, "note": note}
+
+
+TECH_SLICE = ("contract-based deductive verification of the fakesnow-side plumbing (own VC generator over the Python AST, z3/cvc5 out of process) - a slice of the property; "
+              "the SQL/engine semantics the property is mostly about are decided by a bounded differential run-time tier (labelled bounded, not proof)")
+def _o(text, note):
+    return {"level": "other", "technique": TECH_SLICE, "text": text, "note": note}
 
 
 CHECK_TEXT = {
@@ -49,4 +54,32 @@ CHECK_TEXT = {
         "note": "Trusted: pyarrow Table.slice/to_pylist/columns semantics (A-ARROW), Python semantics as encoded (DESIGN 2.5), z3/cvc5. "
         "That DuckDB's arrow table holds the statement's rows in result order is assumed; the bounded tier exercises it on the real stack (bounded, not proof).",
     },
+    "C01": _o("Deductive slice: connect sets the session time zone to UTC; fetchmany/fetchone/fetchall return the cells of the held arrow table unchanged, each row once. The value conversions (DuckDB, pyarrow) "
+              "are outside any contract on fakesnow code: bounded round trips over every supported column type x boundary values x write path decide them. Known finding (NUMBER(p,0) wider than 18 digits read back as Decimal) printed.",
+              "Not proof for the property as a whole: conversions by DuckDB/pyarrow are exercised on the stated bound only. Trusted: A-DUCK, A-ARROW."),
+    "C02": _o("Deductive slice: checks.equal is Snowflake identifier equality for all identifier pairs; upper_case_unquoted_identifiers is the first transform of every statement and precedes the context/status transforms; "
+              "conn.database/schema are the upper-cased arguments; status rows and USE bookkeeping use the normalised name. Bounded: scenario histories of every statement kind under keyword/identifier re-spellings "
+              "(lower/UPPER/mIxEd/random, quoted upper-case naming) against the all-upper baseline. Known finding (information_schema column names reported in lower case) printed.",
+              "Not proof for the property as a whole. Trusted: sqlglot's case-insensitive parsing, DuckDB's case-insensitive resolution, the node-level transform upper_case_unquoted_identifiers itself (A-TX)."),
+    "C09": _o("Deductive slice: side-table SQL builders record a comment / text lengths for exactly catalog.schema.table as an upsert; _execute runs them right after a statement that declares a comment / text lengths, "
+              "for the statement's own table on the cursor's connection; Snowflake type names/precision/scale come from the proved rowtype table. Bounded: DDL histories against a reference catalog over all metadata surfaces. "
+              "Known findings (4) printed.",
+              "Not proof for the property as a whole: the information_schema / SHOW SQL is DuckDB's. Trusted: A-DUCK, A-SQLGLOT, A-WF, A-PURE."),
+    "C10": _o("Deductive slice: every statement goes through the whole transform pipeline in the fixed order and a database created by a statement gets the macros the rewrites rely on. "
+              "Bounded: each function of the property x argument lists x syntactic contexts against Snowflake's documented results. Known findings (3) printed.",
+              "Not proof for the property as a whole: value/type semantics of each rewrite are DuckDB's on the rewritten SQL; node-level rewrite functions are not under contract (A-TX)."),
+    "C11": _o("Deductive slice: the order-sensitive JSON rewrites are applied in the order their correctness depends on, for every statement. Bounded: JSON documents x paths x casts x contexts against navigating the same "
+              "document in Python. Known findings (6) printed.",
+              "Not proof for the property as a whole: JSON semantics are DuckDB's json extension; node-level rewrites not under contract (A-TX)."),
+    "C12": _o("Deductive slice: merge() produces candidates + one mutation per WHEN clause in clause order + counts, parses each generated statement once, passes non-MERGE statements through and fails only for a MERGE; "
+              "identifier equality used for source columns is proved. Bounded: MERGE clause combinations x data against a Python reference of Snowflake's MERGE. Known findings (4) printed.",
+              "Not proof for the property as a whole: row-level semantics of the generated SQL are DuckDB's; _create_merge_candidates/_mutations/_counts have assumed contracts."),
+    "C15": _o("Deductive slice: each connection owns a fresh empty variable store shared by its cursors only; every statement text is inlined through it before parsing and binding; update_variables runs on every statement with "
+              "that store; an undefined reference raises before anything is parsed or executed. Bounded: the substitution itself against a reference tokenizer, exhaustively over short texts, plus SET/UNSET histories. "
+              "Known finding (adjacent references) printed.",
+              "Not proof for the property as a whole: the substitution is a regular expression evaluated by CPython (A-PY re)."),
+    "C17": _o("Deductive slice: to_conn refuses a missing / unknown token with 401 and the right code without touching the session map and otherwise returns exactly that token's session; the rowtype sent is the proved "
+              "type table; describe-after-execute changes nothing. Bounded: the real connector against the real server vs the in-process fake over types x values (every microsecond fraction for the struct encoder in the "
+              "thorough tier), statement kinds, sessions, tokens. Known finding (scale-0 wide NUMBER int vs Decimal) printed.",
+              "Not proof for the property as a whole: arrow encoding, connector decoding and the async handlers are outside the verifier's subset."),
 }
